@@ -1,6 +1,7 @@
 """C04 — decoded frames are independent of how the byte stream is chunked.
 Correspondence: real FrameParser.receive_data (3-byte framing, fed chunk by chunk), the real TransportTCP read
 loop over an asyncio.StreamReader, and receive_data(data, 0) (message framing), against model/Parser.v."""
+from harness import internals
 import asyncio
 import time
 
@@ -56,7 +57,7 @@ async def _run_stream(chunks_):
         items += o
         if div:
             return items, None
-    return items, bytes(p._buffer)
+    return items, bytes(internals.parser_buffer(p))
 
 
 _BLOCKED = [0]      # how often the TCP read loop was found waiting (every wait costs real time)
@@ -84,20 +85,20 @@ async def _run_tcp(chunks_):
             except asyncio.TimeoutError:
                 _BLOCKED[0] += 1
                 items.append(('raised', 'TransportTCP.next_frame_generator blocks although received bytes are waiting'))
-                return items, bytes(t._frame_parser._buffer)
+                return items, bytes(internals.parser_buffer(internals.frame_parser(t)))
             async for fr in gen:
                 items.append(_item(fr))
-    return items, bytes(t._frame_parser._buffer)
+    return items, bytes(internals.parser_buffer(internals.frame_parser(t)))
 
 
 async def _run_msg(st, data):
     from rsocket.frame_parser import FrameParser
     p = FrameParser()
-    p._buffer.extend(st)
+    internals.parser_buffer(p).extend(st)
     o, div = await _collect(p, data, 0)
     if div:
         return None
-    return o, bytes(p._buffer)
+    return o, bytes(internals.parser_buffer(p))
 
 
 def _coq_item(it):
@@ -379,11 +380,11 @@ def run_messaging(messages, fail_after, consume_every):
         t = loop.run(lambda: T())
 
         async def arrive(msg):
-            async for frame in t._frame_parser.receive_data(msg, 0):      # what every message transport's reader does
-                t._incoming_frame_queue.put_nowait(frame)
+            async for frame in internals.frame_parser(t).receive_data(msg, 0):      # what every message transport's reader does
+                internals.incoming_queue(t).put_nowait(frame)
 
         async def consume_all():
-            while not t._incoming_frame_queue.empty() and not box['failed']:
+            while not internals.incoming_queue(t).empty() and not box['failed']:
                 try:
                     gen = await t.next_frame_generator()
                 except RSocketTransportError:
@@ -399,13 +400,13 @@ def run_messaging(messages, fail_after, consume_every):
         n = 0
         for i, m in enumerate(messages):
             if fail_after is not None and i == fail_after:
-                t._incoming_frame_queue.put_nowait(RSocketTransportError())
+                internals.incoming_queue(t).put_nowait(RSocketTransportError())
             loop.run_until_complete(arrive(m))
             n += 1
             if consume_every and n % consume_every == 0:
                 loop.run_until_complete(consume_all())
         if fail_after is not None and fail_after >= len(messages):
-            t._incoming_frame_queue.put_nowait(RSocketTransportError())
+            internals.incoming_queue(t).put_nowait(RSocketTransportError())
         loop.run_until_complete(consume_all())
         return box['out'], box['failed']
     finally:
